@@ -685,7 +685,7 @@ func runC06Start(c *Ctx, ea *engineAnchors, eg *EventGraph, outs []outcome) {
 			if strings.HasPrefix(ps.End, "exit-return") && len(ps.Ret) == 1 {
 				if _, ok := c.sentinelError(ps.Ret[0]); ok {
 					for _, cd := range ps.Conds {
-						if cd.V.K == KAtom && cd.V.At.Op == "le" && !cd.V.Neg && strings.HasSuffix(cd.V.At.A.String(), ".Bankroll") {
+						if a, ok := ltForm(cd.V); ok && strings.HasSuffix(a.String(), ".Bankroll - 1") && len(a.T) == 1 {
 							okLoop = true
 							tests["bankroll>0"] = true
 						}
